@@ -259,15 +259,197 @@ def summ(x):
     return 'None' if x is None else (str(x) if len(x) <= 12 else f'{x[:12]}… ({len(x)} entries)')
 
 
+# ----------------------------------------------------------------------------------------------
+# history stream: several trajectories gridded one after another by ONE Gridder instance
+# ----------------------------------------------------------------------------------------------
+
+GRID_KEYS = ('glat', 'glon', 'galt', 'gtime')
+
+
+def gen_traj(rng, grid, npts, cross, lat_centre, lons_from=None, lats_from=None):
+    """One trajectory inside `grid` (same domain as c04.gen_case: latitudes within +-LAT_MAX, points clear of grid
+    lines unless exactly on one).  cross = None (stays on one side, no longitude jump above pi) or (k, east):
+    segment k crosses the antimeridian, eastward (+pi side first) or westward.  lons_from / lats_from: reuse the
+    longitudes / latitudes of another trajectory (the crossing latitude then differs through the other coordinate
+    only)."""
+    glat, glon, galt, gtime = (grid[k_] for k_ in GRID_KEYS)
+    span_lat = rng.choice([0.02, 0.1, 0.3, 0.8])
+    span_lon = rng.choice([0.05, 0.3, 1.0])
+    la_min, la_max = max(glat[0], -c04.LAT_MAX), min(glat[-1], c04.LAT_MAX)
+    lats, lons = [], []
+    centre_lon = rng.uniform(glon[0] + span_lon, glon[-1] - span_lon)
+    for i in range(npts):
+        if cross is not None:
+            k, east = cross
+            pos_side = (i <= k) == east
+            lo_, hi_ = (max(PI - span_lon, 0.0), PI) if pos_side else (-PI, min(-PI + span_lon, 0.0))
+        else:
+            lo_, hi_ = centre_lon - span_lon, centre_lon + span_lon
+        cl = lat_centre if i == 0 else lats[-1]
+        la_lo, la_hi = max(cl - span_lat, la_min), min(cl + span_lat, la_max)
+        if la_lo >= la_hi:
+            la_lo, la_hi = la_min, la_max
+        lats.append(c04.pick_coord(rng, glat, la_lo, la_hi, 0.15))
+        lons.append(c04.pick_coord(rng, glon, lo_, hi_, 0.15))
+    if lons_from is not None:
+        lons = list(lons_from)
+    if lats_from is not None:
+        lats = list(lats_from)
+    n = len(lats)
+    alts = times = None
+    if galt is not None and rng.random() < 0.85:
+        alts = [c04.pick_coord(rng, galt, None, None, 0.2) for _ in range(n)]
+    if gtime is not None and rng.random() < 0.85:
+        times = sorted(c04.pick_coord(rng, gtime, None, None, 0.15) for _ in range(n))
+    states = [[rng.uniform(-50, 900) for _ in range(n)] for _ in range(rng.randint(0, 2))]
+    ints = [[rng.uniform(0.0, 500.0) for _ in range(n - 1)] for _ in range(rng.randint(0, 2))]
+    return {'lats': lats, 'lons': lons, 'alts': alts, 'times': times, 'states': states, 'ints': ints}
+
+
+def gen_history(rng):
+    """-> {'grid', 'trajs', 'steps': [(trajectory number, entry point)], 'kind'}.
+
+    One global degree grid (longitude lines from -pi to pi) and 2-3 different trajectories that one Gridder instance
+    grids one after another, in orders such as A B, A B A, A B C, A B B A.  Main kind ('same-crossing'): all
+    trajectories have the same number of points and cross the antimeridian in the SAME segment and the SAME
+    direction, but at clearly different latitudes (independent routes in latitude bands at least two cells apart;
+    the same longitudes at other latitudes; the same latitudes at other longitudes).  Other kinds mix directions,
+    crossing segments and non-crossing routes."""
+    glat, glon, galt, gtime = c04.gen_grid(rng, True)
+    grid = dict(zip(GRID_KEYS, (glat, glon, galt, gtime)))
+    la_min, la_max = max(glat[0], -c04.LAT_MAX), min(glat[-1], c04.LAT_MAX)
+    ntraj = 2 if rng.random() < 0.6 else 3
+    r = rng.random()
+    kind = 'same-crossing' if r < 0.6 else 'mixed-crossings' if r < 0.85 else 'crossing-and-plain'
+    npts = rng.randint(2, 7)
+    k, east = rng.randint(0, npts - 2), rng.random() < 0.5
+    # latitude bands clearly apart: centres spread over the grid's latitude range, in random order
+    step = (la_max - la_min) / ntraj
+    centres = [la_min + (i + rng.uniform(0.15, 0.85)) * step for i in range(ntraj)]
+    rng.shuffle(centres)
+    trajs, variants = [], []
+    for t in range(ntraj):
+        cross = (k, east)
+        n_t = npts
+        if kind == 'mixed-crossings' and t > 0:
+            n_t = rng.randint(2, 7)
+            cross = (rng.randint(0, n_t - 2), rng.random() < 0.5)
+        elif kind == 'crossing-and-plain' and (t % 2 == 1):
+            n_t, cross = rng.randint(2, 7), None
+        lons_from = lats_from = None
+        variant = 'independent'
+        if kind == 'same-crossing' and t > 0:
+            v = rng.random()
+            if v < 0.25:
+                lons_from, variant = trajs[0]['lons'], 'same-longitudes'
+            elif v < 0.4:
+                lats_from, variant = trajs[0]['lats'], 'same-latitudes'
+        trajs.append(gen_traj(rng, grid, n_t, cross, centres[t], lons_from, lats_from))
+        variants.append(variant)
+    orders = {2: [[0, 1], [0, 1, 0], [0, 1, 1, 0], [0, 0, 1]],
+              3: [[0, 1, 2], [0, 1, 2, 0], [0, 1, 0, 2], [2, 1, 0, 1]]}[ntraj]
+    order = rng.choice(orders)
+    steps = [[t, c04.TWIN if rng.random() < 0.2 else 'grid_trajectory'] for t in order]
+    return {'grid': grid, 'trajs': trajs, 'steps': steps, 'kind': kind, 'variants': variants}
+
+
+def crossing_of(traj):
+    """(segment number, 'east' | 'west', latitude at which the straight map line meets +-pi) of the single crossing"""
+    for j, (a, b) in enumerate(zip(traj['lons'][:-1], traj['lons'][1:])):
+        if abs(b - a) > PI:
+            b_ = b + 2 * PI if a > 0 else b - 2 * PI
+            edge = PI if a > 0 else -PI
+            t = (edge - a) / (b_ - a)
+            return j, 'east' if a > 0 else 'west', traj['lats'][j] + t * (traj['lats'][j + 1] - traj['lats'][j])
+    return None
+
+
+def check_histories(chk: Check, hists):
+    """Every call on the shared Gridder must give exactly what a fresh Gridder gives for the same trajectory (the
+    result of gridding is a function of the grid and the trajectory, not of what the instance gridded before), and
+    the shared instance's result goes through the per-trajectory C05 oracle."""
+    for h in hists:
+        grid, trajs = h['grid'], h['trajs']
+        cases = [dict(grid, **t, kinds=['history']) for t in trajs]
+        inst = [c04.instrumented(c) for c in cases]
+        cr = [crossing_of(t) for t in trajs]
+        chk.count('history:kind=' + h['kind'])
+        chk.count(f"history:steps={len(h['steps'])},trajectories={len(trajs)}")
+        # pairs of consecutive different trajectories with the same crossing segment and direction, and how far
+        # apart (in latitude cells) they meet the antimeridian
+        import bisect
+        for (a, _), (b, _) in zip(h['steps'][:-1], h['steps'][1:]):
+            if a != b and cr[a] and cr[b] and cr[a][:2] == cr[b][:2]:
+                d = abs(bisect.bisect_left(grid['glat'], cr[a][2]) - bisect.bisect_left(grid['glat'], cr[b][2]))
+                chk.count('history:consecutive-same-segment-same-direction-crossings:lat-cells-apart='
+                          + ('0' if d == 0 else '1' if d == 1 else '2+'))
+        chk.case(h, nontrivial=sum(1 for c in cr if c) >= 2)
+        try:
+            g = c04.gridder(cases[0])
+        except Exception as e:  # noqa: BLE001
+            chk.fail(f'history: Gridder(...) raised {type(e).__name__}: {e}', {'history': h}, None)
+            continue
+        fresh = {}
+        ok = True
+        for s, (t, entry) in enumerate(h['steps']):
+            case, (st, iv) = cases[t], inst[t]
+            where = (f'history step {s} of {len(h["steps"])} (trajectory {t}, {entry}; before it the same Gridder '
+                     f'gridded trajectories {[x for x, _ in h["steps"][:s]]})')
+            try:
+                shared = c04.run_impl(case, st, iv, entry=entry, g=g)
+                if (t, entry) not in fresh:
+                    fresh[(t, entry)] = c04.run_impl(case, st, iv, entry=entry)
+            except Exception as e:  # noqa: BLE001
+                chk.fail(f'{where}: raised {type(e).__name__}: {e}', {'history': h, 'step': s}, None)
+                ok = False
+                break
+            ref = fresh[(t, entry)]
+            info = {'history': h, 'step': s, 'trajectory': case, 'crossings': cr,
+                    'impl_shared_instance': {k: shared[k] for k in ('lat', 'lon', 'alt', 'time')},
+                    'impl_shared_instance_share': None if shared['ints'] is None else shared['ints'][-1],
+                    'impl_fresh_instance': {k: ref[k] for k in ('lat', 'lon', 'alt', 'time')},
+                    'impl_fresh_instance_share': None if ref['ints'] is None else ref['ints'][-1]}
+            if not c04.same_out(shared, ref):
+                chk.fail(f'{where}: the result differs from what a fresh Gridder gives for the same trajectory '
+                         f'(state is carried from one trajectory to the next)', info, None)
+                ok = False
+            if shared['lat'] is None:
+                if not c04.any_multi_crossing(case):
+                    chk.fail(f'{where}: returned None although the trajectory does not cross the antimeridian more '
+                             f'than once', info, None)
+                    ok = False
+                continue
+            if entry == 'grid_trajectory':      # (the twin's own per-trajectory oracle runs in the main stream)
+                for desc, sig in c05_oracle(case, shared):
+                    if chk.fail(f'{where}: {desc}', info, signature=sig) != 'known':
+                        ok = False
+        if ok:
+            chk.traces_validated += 1
+
+
+def describe_histories(chk: Check):
+    chk.rule += ('. History stream: one Gridder instance grids 2-3 different trajectories one after another (orders A B, '
+                 'A B A, A B B A, A A B, A B C, A B C A, A B A C, C B A B; each step through grid_trajectory or, 20 %, '
+                 'its public twin) on a global degree grid; 60 % of the histories consist of antimeridian crossings '
+                 'in the SAME segment number and SAME direction at latitudes in different bands of the grid '
+                 '(independent routes / same longitudes at other latitudes / same latitudes at other longitudes), the '
+                 'rest mixes directions, crossing segments and non-crossing routes. Every call must equal a fresh '
+                 "Gridder's result for that trajectory exactly and passes the per-trajectory oracle")
+
+
 def run(chk: Check):
     c04.describe(chk)
+    describe_histories(chk)
     chk.assumptions += ['closed-cell reading: a piece running along a grid line may be attributed to either adjacent '
                         'cell; a point on the lowest line of an axis belongs to the first cell']
     c04.note_source(chk)
     chk.coq_props('props/C05_Props.v')
     c04.translator_tie(chk, 'C05_Link.v')
     cases = c04.load_corpus('C05') + [c04.gen_case(chk.rng) for _ in range(chk.n(1000, 8000))]
+    # generated after the single-trajectory cases: those stay the same for a given seed
+    hists = [gen_history(chk.rng) for _ in range(chk.n(400, 3000))]
     check_cases(chk, cases)
+    check_histories(chk, hists)
 
 
 def check_cases(chk: Check, cases):
@@ -310,6 +492,9 @@ def replay(chk: Check, rp):
     c04.note_source(chk)
     chk.coq_props('props/C05_Props.v')
     c04.translator_tie(chk, 'C05_Link.v')
+    hist = (rp.get('case') or {}).get('history')
     case = (rp.get('case') or {}).get('case')
-    if case:
+    if hist:
+        check_histories(chk, [hist])
+    elif case:
         check_cases(chk, [case])
